@@ -277,7 +277,31 @@ def hist_events():
         ev.append(("enable", n))
         ev.append(("disable", n))
         ev.append(("move", n, "down"))
+    # calls that the factory refuses with an exception part-way through building the filter (unsupported tag after a supported action,
+    # unknown test after an extension test): the set must afterwards render as if the call had never been made
+    ev.append(("badadd", "z", [("Subject", ":is", "x")], [("fileinto", ":copy", "Ok"), ("fileinto", ":bogus", "x")]))
+    ev.append(("badadd", "z", [("envelope", ":is", ["From"], ["a"]), ("nottrue",)], [("keep",)]))
+    ev.append(("badupdate", "a", [("Subject", ":is", "x")], [("fileinto", ":create", "Ok"), ("redirect", ":bogus", "x")]))
     return ev
+
+
+def _apply(ev, fs, model, ns):
+    if ev[0] in ("badadd", "badupdate"):
+        try:
+            if ev[0] == "badadd":
+                fs.addfilter(ev[1], list(ev[2]), list(ev[3]))
+            elif model._find(ev[1]) is not None:
+                fs.updatefilter(ev[1], ev[1], list(ev[2]), list(ev[3]))
+            else:
+                return None
+        except Exception:  # noqa
+            return True  # refused, as expected: the model is unchanged
+        return None  # the tree accepted the definition after all: not the situation this event is about
+    return c12.apply(ev, fs, model, ns)
+
+
+def _label(e):
+    return "%s(%s)" % (e[0], e[1]) if e[0] in ("badadd", "badupdate") else c12.ev_label(e)
 
 
 def hist_task(t):
@@ -298,7 +322,7 @@ def hist_task(t):
             skip = False
             try:
                 for ev in h:
-                    r = c12.apply(ev, fs, model, ns)
+                    r = _apply(ev, fs, model, ns)
                     if r is None:
                         skip = True
                         break
@@ -314,9 +338,9 @@ def hist_task(t):
                 bad, text = ("exception:%s" % type(e).__name__, "rendering raised %s" % e), ""
             if bad:
                 viols.append({"property": "C06", "engine": "factory", "signature": ["C06", "history", h[-1][0] + ":" + str(h[-1][-1] if h[-1][0] == "add" else ""), bad[0]],
-                              "what": "after %s: %s" % (" ; ".join(c12.ev_label(e) for e in h), bad[1]),
+                              "what": "after %s: %s" % (" ; ".join(_label(e) for e in h), bad[1]),
                               "case": {"kind": "history", "history": c12._jsonable(h)},
-                              "witness": " ; ".join(c12.ev_label(e) for e in h), "observed": text[:200]})
+                              "witness": " ; ".join(_label(e) for e in h), "observed": text[:200]})
                 continue
             k = (model.state(), tuple(sorted(fs.requires)))
             if k not in seen:
@@ -378,7 +402,7 @@ def hist_task_single(h, ns):
     fs = F.new_set(ns)
     model = F.RefFilters()
     for ev in h:
-        if c12.apply(ev, fs, model, ns) is None:
+        if _apply(ev, fs, model, ns) is None:
             return []
     text = F.render(fs)
     bad, v = judge_script(ns, text)
